@@ -283,6 +283,8 @@ def strat_post(tier):
         'n2': st.integers(1, 6), 'npts': st.integers(1, 8), 'sample_seed': st.integers(0, 10 ** 5),
         # the bounds handed to the posterior (only the normalisation grid uses them): wide, or tighter than the regions
         'lims': st.sampled_from([4.0, 4.0, 1.5, 0.8]),
+        # overall magnitude of the distances and cut-offs (tightly concentrated problems: everything around 1e-9)
+        'dscale': st.sampled_from([1.0, 1.0, 1e-9]),
     }))
 
 
@@ -309,6 +311,7 @@ def run_post(case):
     def prior_pdf(x):
         return float(np.prod([dists[i].pdf(x[i]) for i in range(d)]))
     regions, funcs, params = [], [], []
+    sc = float(case.get('dscale', 1.0))
     for r in range(case['nreg']):
         R = rotation(d, list(rs.uniform(-3, 3, size=3)), bool(rs.randint(2)))
         c = rs.uniform(-3, 3, size=d)
@@ -320,12 +323,12 @@ def run_post(case):
         mi = c + rs.randn(d) * 0.3
         off = rs.uniform(0, 0.2)
         params.append((A, mi, off, R, c, lim))
-        funcs.append((lambda A, mi, off: (lambda th: float((th - mi).dot(A).dot(th - mi)) + off))(A, mi, off))
+        funcs.append((lambda A, mi, off: (lambda th: sc * (float((th - mi).dot(A).dot(th - mi)) + off)))(A, mi, off))
     ctx = 'case=%r' % (case,)
     with must_not_raise(P, 'RomcPosterior; ' + ctx):
         post = RomcPosterior(regions, funcs, funcs, funcs, funcs, list(range(case['nreg'])), case['surrogate_used'], prior,
-                             np.full(d, -case.get('lims', 4.0)), np.full(d, case.get('lims', 4.0)), eps_filter=10.0, eps_region=5.0,
-                             eps_cutoff=case['cutoffs'][0])
+                             np.full(d, -case.get('lims', 4.0)), np.full(d, case.get('lims', 4.0)), eps_filter=10.0 * sc, eps_region=5.0 * sc,
+                             eps_cutoff=case['cutoffs'][0] * sc)
     pts = np.vstack([rs.uniform(-4.5, 4.5, size=(case['npts'], d))] + [params[r][4][None, :] + rs.randn(2, d) * 0.5 for r in range(case['nreg'])])
 
     def inside(r, x):
@@ -340,6 +343,7 @@ def run_post(case):
         labels.append('bounds-tighter-than-regions')
     nz = 0
     for ci, eps in enumerate(case['cutoffs']):
+        eps = eps * sc
         if ci > 0:
             post.reset_eps_cutoff(eps)
             labels.append('cutoff-changed')
@@ -350,7 +354,7 @@ def run_post(case):
             skip = False
             for r in range(case['nreg']):
                 dist = funcs[r](x)
-                if abs(dist - eps) < 1e-9:
+                if abs(dist - eps) < 1e-9 * sc:
                     skip = True
                 ok = dist <= eps
                 if case['surrogate_used']:
@@ -380,7 +384,7 @@ def run_post(case):
                 x = theta[r, j]
                 ins = inside(r, x)
                 dist = funcs[r](x)
-                if ins is None or abs(dist - eps) < 1e-9:
+                if ins is None or abs(dist - eps) < 1e-9 * sc:
                     continue
                 if not ins:
                     raise Violation('C19:posterior-sample-outside-region', 'sample %r of region %d lies outside it; %s' % (x.tolist(), r, ctx))
@@ -397,7 +401,7 @@ CHECK = Check(
           'widths 0, < 1e-3 (widened) up to 600, n2 1-50 sampled points (seed given as int/None/RandomState) plus 12 oracle-placed query '
           'points (inside, outside, near faces); line search: 6 objective shapes along a line, boundaries incl. exact multiples of the step, '
           'eta, K, rep_lim incl. 1-10; region constructor on quadratic bowls; posterior: 1-6 regions/objectives, ModelPrior of a real '
-          'model, surrogate_used on/off, a sequence of 1-3 cut-offs (incl. exactly 0: nothing accepted) on ONE posterior object, bounds wide or tighter than the regions. Non-trivial: d >= 2 with a rotation whose '
+          'model, surrogate_used on/off, a sequence of 1-3 cut-offs (incl. exactly 0: nothing accepted) on ONE posterior object, bounds wide or tighter than the regions, distances and cut-offs of magnitude 1 or 1e-9. Non-trivial: d >= 2 with a rotation whose '
           'off-diagonal exceeds 0.1 and a non-zero centre (box); the objective crossed the threshold (line); d >= 2 with a non-zero count '
           '(posterior).'),
     parts=[Part('box', run_box, strategy=strat_box, examples={'quick': 600, 'thorough': 32000}),
